@@ -10,8 +10,9 @@ RULE = ("a few dozen well-formed messages (every field kind, both endians, 4 typ
         "{0x00, 0xff, +1, ^0x20}), body-length / fields-length / endian-byte / context-endian mutations, the signature field "
         "replaced by other signatures, name fields replaced by invalid names, plus semi-valid random tails. Observation: "
         "ERR / PANIC / OK:<header>:<body>:<display>:<debug>:<deserialize>, each accessor under catch_unwind (P = panicked). "
-        "non-trivial = the fixed header was accepted (not rejected within the first 16 bytes).")
-TRUSTED = ["zvariant's general Value/Structure decoder is assumed to return (C04): header-field values of other types and body().deserialize are not modelled beyond slicing",
+        "plus header fields (known and unknown codes) carrying values of random nested types with their single-byte mutations, and nesting "
+        "at the container depth limits. non-trivial = the fixed header was accepted (not rejected within the first 16 bytes).")
+TRUSTED = ["body().deserialize::<Structure>() is assumed to return (C04); header-field values of every type ARE modelled (de_value)",
            "signature grammar modelled by a deterministic parser (C06 owns the combinator code)"]
 ASSUMPTIONS = ["Message::from_bytes is given a Data whose context endian is chosen by the caller (the harness passes l, B or the one named by byte 0, as the socket reader does)",
                "messages are shorter than 4 GiB"]
@@ -190,11 +191,14 @@ def search(rng, bad_cases):
 
 ENABLED = True
 LEVEL = "proof"
-LEVEL_TEXT = ("The full statement (for every byte string and context, from_raw_parts does not panic and every accessor of an accepted "
-              "message does not panic) is REFUTED on this tree by three machine-checked witnesses (empty input; input ending inside "
-              "the padding before the body; a header string field that is not a valid name) and PROVED for every other input "
-              "(C12_partial: the three classes are the only crash sources of the modelled code: no slice, index, UTF-8, unwrap or "
-              "assert can fire otherwise). Model tied to the code by exhaustive truncation / single-byte mutation runs.")
-LEVEL_NOTE = ("partial: the property does not hold on the unchanged tree (3 known-finding classes, all confirmed on the real code; the "
-              "invalid-name class also kills the socket-reader task of a live connection). Decoding of header-field values of types "
-              "other than s/o/g/u and of the body by zvariant's general decoder is assumed not to panic (C04).")
+LEVEL_TEXT = ("C12_nopanic (coq/theories/Properties/C12.v): for EVERY byte string and context endianness, Message::from_raw_parts of the "
+              "model does not panic, and for every accepted message none of header() (all fields), body(), Display, Debug and body "
+              "deserialization panics - proved at full strength on the tree repaired by fix: e5b4d5a2 (length checks) and b3fdf920 "
+              "(header name fields validated at parse time); no known-deviation class remains (the three former witnesses are now "
+              "rejected: Example C12_former_witnesses). The model includes zvariant's dynamically typed value decoder for header-field "
+              "values of any type (nesting limits 32/32/64); C12_no_fuel_artifact shows that none of the model's loop bounds is ever "
+              "reached. Tied to the code by exhaustive truncation / single-byte mutation runs and random typed header-field values.")
+LEVEL_NOTE = ("Trusted: Coq kernel; the hand-written model (absolute-position reading of zvariant's D-Bus deserializer); harness hmsg. "
+              "Assumed: body().deserialize::<Structure>() on the body bytes returns (zvariant's general decoder on the BODY is C04's "
+              "subject; the model only covers the slicing); an ignored header field containing a file-descriptor index is decoded "
+              "against an empty descriptor list (Message::from_bytes of a Data without fds); messages shorter than 4 GiB.")
